@@ -66,7 +66,7 @@ func (opts *CompileOptions) Compile(source string) (string, error) {
 				mode:   letExprMode,
 			}
 			sb := new(strings.Builder)
-			if err := writeExpressionMaybeParen(ctx, sb, stmt.X); err != nil {
+			if err := writeOperand(ctx, sb, stmt.X); err != nil {
 				return "", err
 			}
 			scope[stmt.Name.Name] = sb.String()
@@ -665,7 +665,7 @@ func writeExpression(ctx *exprContext, sb *strings.Builder, x parser.Expr) error
 		default:
 			fmt.Fprintf(sb, "/* unhandled %s unary op */ ", x.Op)
 		}
-		if err := writeExpressionMaybeParen(ctx, sb, x.X); err != nil {
+		if err := writeOperand(ctx, sb, x.X); err != nil {
 			return err
 		}
 	case *parser.BinaryExpr:
@@ -759,7 +759,7 @@ func writeExpression(ctx *exprContext, sb *strings.Builder, x parser.Expr) error
 		}
 		sb.WriteString(")")
 	case *parser.IndexExpr:
-		if err := writeExpressionMaybeParen(ctx, sb, x.X); err != nil {
+		if err := writeOperand(ctx, sb, x.X); err != nil {
 			return err
 		}
 		sb.WriteString("[")
@@ -817,6 +817,32 @@ func writeExpressionMaybeParen(ctx *exprContext, sb *strings.Builder, x parser.E
 	}
 	sb.WriteString(")")
 	return nil
+}
+
+// writeOperand writes x where a leading sign would change the meaning:
+// as the operand of a unary sign (two signs in a row would read as a SQL comment or
+// as one operator), as the base of an index expression (indexing binds tighter than
+// a sign in SQL) and as the value substituted for a let binding.
+// Signed expressions are parenthesized; everything else is written
+// as by writeExpressionMaybeParen.
+func writeOperand(ctx *exprContext, sb *strings.Builder, x parser.Expr) error {
+	inner := x
+	for {
+		p, ok := inner.(*parser.ParenExpr)
+		if !ok {
+			break
+		}
+		inner = p.X
+	}
+	if _, ok := inner.(*parser.UnaryExpr); ok {
+		sb.WriteString("(")
+		if err := writeExpression(ctx, sb, inner); err != nil {
+			return err
+		}
+		sb.WriteString(")")
+		return nil
+	}
+	return writeExpressionMaybeParen(ctx, sb, x)
 }
 
 type functionRewrite struct {
